@@ -11,6 +11,17 @@ FIRST_RUN = {
  "C13-1": "-", "C13-2": "-", "C13-3": "-", "C14-1": "T", "C14-2": "T", "C14-3": "T", "C15-1": "T", "C15-2": "T", "C15-3": "T",
  "C16-1": "O", "C16-2": "T", "C16-3": "T", "C17-1": "T", "C17-2": "-", "C17-3": "-", "C18-1": "-", "C18-2": "-", "C18-3": "T",
  "C20-1": "-", "C20-2": "T", "C20-3": "-",
+ # round 2 (57 changes, evaluated first against a frozen snapshot of the machinery as committed before the round: commit d5a3a87)
+ "C01-r2-1": "O", "C01-r2-2": "O", "C01-r2-3": "O", "C02-r2-1": "-", "C02-r2-2": "-", "C02-r2-3": "-",
+ "C03-r2-1": "T", "C03-r2-2": "-", "C03-r2-3": "T", "C04-r2-1": "O", "C04-r2-2": "O", "C04-r2-3": "O",
+ "C05-r2-1": "-", "C05-r2-2": "-", "C05-r2-3": "T", "C06-r2-1": "O", "C06-r2-2": "-", "C06-r2-3": "T",
+ "C07-r2-1": "T", "C07-r2-2": "-", "C07-r2-3": "T", "C08-r2-1": "O", "C08-r2-2": "-", "C08-r2-3": "T",
+ "C09-r2-1": "T", "C09-r2-2": "T", "C09-r2-3": "T", "C10-r2-1": "-", "C10-r2-2": "T", "C10-r2-3": "T",
+ "C11-r2-1": "-", "C11-r2-2": "-", "C11-r2-3": "-", "C12-r2-1": "O", "C12-r2-2": "O", "C12-r2-3": "-",
+ "C13-r2-1": "O", "C13-r2-2": "T", "C13-r2-3": "T", "C14-r2-1": "T", "C14-r2-2": "T", "C14-r2-3": "T",
+ "C15-r2-1": "T", "C15-r2-2": "T", "C15-r2-3": "-", "C16-r2-1": "-", "C16-r2-2": "T", "C16-r2-3": "O",
+ "C17-r2-1": "T", "C17-r2-2": "-", "C17-r2-3": "-", "C18-r2-1": "T", "C18-r2-2": "T", "C18-r2-3": "T",
+ "C20-r2-1": "T", "C20-r2-2": "-", "C20-r2-3": "-",
 }
 
 rows = []
@@ -34,6 +45,11 @@ with open("/verif/seeded/INDEX.md", "w") as fh:
     fh.write("\nRemoved after the F15 fix: C03-3 and C04-1 (the same edit as C18-2, written independently by three sub-agents: the offset calculation moved "
              "below the recompilation in `_update_fields`). Their demos relied on the dynamic-alignment path of the generator being wrong (F15); once that was "
              "repaired they no longer fail, so they are not kept. C18-2 still manifests and is reported by C18.R4 / C03.R10 / C04.R7.\n")
-    fh.write(f"\nTotals: {len(rows)} confirmed changes; first run: {t} by the target check, {o} more only by another check, {len(rows)-t-o} by none; "
-             f"now: {now}/{len(rows)} by the target check.\n")
+    for label, sel in (("round 1", [r for r in rows if "-r2-" not in r[0]]), ("round 2", [r for r in rows if "-r2-" in r[0]]), ("both rounds", rows)):
+        t = sum(1 for r in sel if r[2] == "T"); o = sum(1 for r in sel if r[2] == "O"); now = sum(1 for r in sel if "missed" not in r[3])
+        fh.write(f"\nTotals {label}: {len(sel)} confirmed changes; first run: {t} by the target check, {o} more only by another check, {len(sel)-t-o} by none; "
+                 f"now: {now}/{len(sel)} by the target check.\n")
+    fh.write("\nRound 2 was evaluated first against a frozen copy of the machinery as committed before that round (so the first-run column is what an "
+             "outsider's change met), then triaged. C07-r2-1 counted as T on the first run for the wrong reason (the terminator rule did not recognise the "
+             "hoisted zero constant); the rule that reports it now (raw-bytes terminator test on a structure) was written during the triage.\n")
 print(open("/verif/seeded/INDEX.md").read()[-400:])
